@@ -90,8 +90,22 @@ type world struct {
 	ac        []acEntry
 	failedCtx map[context.Context]bool
 	buffers   []*trackedReader
-	cur       *actionState
 	nextIdx   int
+	multi     bool // several actions run concurrently: labels carry the action index
+}
+
+// The monitor state of an action travels with the action's context (the
+// contexts that errgroup derives from it keep the value), so that several
+// worker threads can run actions at the same time.
+type actionKey struct{}
+
+func withAction(ctx context.Context, st *actionState) context.Context {
+	return context.WithValue(ctx, actionKey{}, st)
+}
+
+func actionOf(ctx context.Context) *actionState {
+	st, _ := ctx.Value(actionKey{}).(*actionState)
+	return st
 }
 
 var blobNames = []string{"A", "B", "C", "D", "P"}
@@ -171,6 +185,7 @@ type trackedReader struct {
 	serial int
 	r      *bytes.Reader
 	closed int
+	owner  *actionState // the action (worker thread) that handed the buffer to its batching writer
 }
 
 func (t *trackedReader) Read(p []byte) (int, error) {
@@ -197,21 +212,21 @@ func (t *trackedReader) Close() error {
 
 // newBuffer hands out a CAS buffer for blob name whose release (by
 // consumption or Discard) is counted.
-func (w *world) newBuffer(name string) buffer.Buffer {
+func (w *world) newBuffer(ctx context.Context, name string) buffer.Buffer {
 	w.mu.Lock()
-	t := &trackedReader{w: w, name: name, serial: len(w.buffers), r: bytes.NewReader(w.contents[name])}
+	t := &trackedReader{w: w, name: name, serial: len(w.buffers), r: bytes.NewReader(w.contents[name]), owner: actionOf(ctx)}
 	w.buffers = append(w.buffers, t)
 	w.mu.Unlock()
 	return buffer.NewCASBufferFromReader(w.digests[name], t, buffer.UserProvided)
 }
 
-// checkBuffers: every buffer handed to the batching layer must have been
-// released exactly once by now (after a flush returned).
-func (w *world) checkBuffers(when string) {
+// checkBuffers: every buffer that action cur handed to its batching writer
+// must have been released exactly once by now (after a flush returned).
+func (w *world) checkBuffers(cur *actionState, when string) {
 	w.mu.Lock()
 	defer w.mu.Unlock()
 	for _, t := range w.buffers {
-		if t.closed == 0 {
+		if t.owner == cur && t.closed == 0 {
 			w.fail("buffer/never-released", "%s: buffer #%d of blob %s was neither consumed nor discarded", when, t.serial, t.name)
 		}
 	}
@@ -220,15 +235,16 @@ func (w *world) checkBuffers(when string) {
 // ---------------------------------------------------------------------------
 // Fault bookkeeping
 
-func (w *world) noteFault(label string, batchLayer bool) {
+func (w *world) noteFault(ctx context.Context, label string, batchLayer bool) {
 	w.mu.Lock()
 	defer w.mu.Unlock()
-	if w.cur != nil {
-		w.cur.faults = append(w.cur.faults, label)
+	if cur := actionOf(ctx); cur != nil {
+		cur.faults = append(cur.faults, label)
 		if batchLayer {
-			w.cur.batchFaults++
+			cur.batchFaults++
 		}
 	}
+	w.x.Logf("FAULT %s", label)
 }
 
 var (
@@ -240,20 +256,20 @@ var (
 // Monitors
 
 // ackedPut is called when the batching layer's Put returned nil.
-func (w *world) ackedPut(name string) {
+func (w *world) ackedPut(ctx context.Context, name string) {
 	w.mu.Lock()
 	defer w.mu.Unlock()
-	if w.cur != nil {
-		w.cur.acked = append(w.cur.acked, name)
+	if cur := actionOf(ctx); cur != nil {
+		cur.acked = append(cur.acked, name)
 	}
 }
 
 // onFlushReturn implements "a write acknowledged by the batching layer is
 // either stored by the time flush reports success or its failure is
 // reported by that flush".
-func (w *world) onFlushReturn(err error) {
+func (w *world) onFlushReturn(ctx context.Context, err error) {
 	w.mu.Lock()
-	cur := w.cur
+	cur := actionOf(ctx)
 	var missing []string
 	if cur != nil {
 		cur.flushCalls++
@@ -270,10 +286,11 @@ func (w *world) onFlushReturn(err error) {
 	}
 	cas := w.casNamesLocked()
 	w.mu.Unlock()
+	w.x.Logf("flush returned %v; CAS=%v", err, cas)
 	if len(missing) > 0 {
 		w.fail("ack/lost-write", "flush returned nil, but acknowledged blob(s) %v are not in the CAS (CAS=%v, faults so far=%v)", missing, cas, cur.faults)
 	}
-	w.checkBuffers("after flush")
+	w.checkBuffers(cur, "after flush")
 }
 
 func referencedDigests(r *remoteexecution.ActionResult) map[string][]*remoteexecution.Digest {
@@ -307,9 +324,9 @@ var digestFields = []string{"OutputFiles", "OutputDirectories", "StdoutDigest", 
 
 // checkACWrite is evaluated when the code under test *attempts* a write to
 // the Action Cache, whatever the fate of that write.
-func (w *world) checkACWrite(result *remoteexecution.ActionResult) {
+func (w *world) checkACWrite(ctx context.Context, result *remoteexecution.ActionResult) {
 	w.mu.Lock()
-	cur := w.cur
+	cur := actionOf(ctx)
 	cur.acAttempts++
 	cas := w.casNamesLocked()
 	var absent []string
@@ -345,9 +362,8 @@ func (w *world) checkACWrite(result *remoteexecution.ActionResult) {
 
 // checkResponse is evaluated on the ExecuteResponse returned by the
 // outermost (caching) executor.
-func (w *world) checkResponse(resp *remoteexecution.ExecuteResponse) {
+func (w *world) checkResponse(cur *actionState, resp *remoteexecution.ExecuteResponse) {
 	w.mu.Lock()
-	cur := w.cur
 	cached := false
 	for _, e := range w.ac {
 		if e.actionKey == cur.key {
@@ -388,7 +404,8 @@ func (w *world) checkResponse(resp *remoteexecution.ExecuteResponse) {
 			w.fail("response/advertises-digests/"+adv[0], "response still advertises digests in %v although output writes/flush failed: faults=%v flushFailed=%v %s", adv, cur.faults, cur.flushFailed, cur.cfg)
 		}
 	}
-	w.checkBuffers("after Execute")
+	w.checkBuffers(cur, "after Execute")
+	w.x.Logf("action %d (%s): response status=%v exit=%d advertised=%v cached=%v faults=%v flushFailed=%v", cur.idx, cur.cfg, resp.GetStatus(), resp.GetResult().GetExitCode(), adv, cached, cur.faults, cur.flushFailed)
 	w.x.Outcome("a%d:%s faults=%d/%d err=%v cached=%v adv=%d flushfail=%v", cur.idx, cur.cfg, len(cur.faults), cur.batchFaults, isErr, cached, len(adv), cur.flushFailed)
 }
 
